@@ -102,7 +102,7 @@ Proof.
     destruct cl; [exact Hwf|].
     destruct (lookup id reps) as [[]|]; try exact Hwf.
     destruct ctl as [|id' dl| | |]; try exact Hwf.
-    destruct (id' =? id); [exact Logic.I|exact Hwf].
+    destruct (id' =? id); [reflexivity|exact Hwf].
   - destruct cl; [exact Hwf|]. destruct lk; exact Hwf.
   - exact Hwf.
   - exact Hwf.
@@ -196,7 +196,7 @@ Proof.
   - unfold on_response; cbn [k_closed k_replies k_ctl].
     destruct (lookup id reps) as [[]|]; try (cbn; discriminate).
     destruct ctl as [|id' dl| | |]; try (cbn; discriminate).
-    destruct (id' =? id); cbn; discriminate.
+    destruct (id' =? id); cbn; [intros _; right; now left|discriminate].
   - destruct lk; cbn; discriminate.
   - intros _; now left.
 Qed.
